@@ -26,7 +26,7 @@ CHECKS = {
         ref="DESIGN.md §3 C03",
     ),
     "C04": dict(
-        technique="static analysis on Python ast: index-variance (frame) typing of the lattice linear algebra — every axis is Cartesian, a lattice basis index or a lattice component index; .T swaps, inv swaps and flips, a contraction needs the same lattice with opposite variance — seeded from the repository's own conventions (x.cell, x.scaled_positions, supercell and primitive matrices); plus rejection-path rules (atom-count test before the maps are stored; species test on full symbols gathered through the mapping table); integrality typing of the trimming gate; rounding-before-integer-conversion def-use rule; symbolic evaluation of the trimming-frame expression on 3x3 symbolic entries with numpy broadcasting semantics (diag(frame).T = S); broadcast-alignment rule (per-row reductions combined with columns); after its own rules, the other properties' rules on the files this property is anchored in (anchor-scoped delegation, instances cached per tree digest); symbolic corner points of the surrounding frame; index-domain typing of the stored supercell/unit-cell maps (unit cell, surrounding cell, supercell, first images; composition and block-length rules)",
+        technique="static analysis on Python ast: index-variance (frame) typing of the lattice linear algebra — every axis is Cartesian, a lattice basis index or a lattice component index; .T swaps, inv swaps and flips, a contraction needs the same lattice with opposite variance — seeded from the repository's own conventions (x.cell, x.scaled_positions, supercell and primitive matrices); plus rejection-path rules (atom-count test before the maps are stored; species test on full symbols gathered through the mapping table); integrality typing of the trimming gate; rounding-before-integer-conversion def-use rule; symbolic evaluation of the trimming-frame expression on 3x3 symbolic entries with numpy broadcasting semantics (diag(frame).T = S); broadcast-alignment rule (per-row reductions combined with columns); after its own rules, the other properties' rules on the files this property is anchored in (anchor-scoped delegation, instances cached per tree digest); symbolic corner points of the surrounding frame; index-domain typing of the stored supercell/unit-cell maps (unit cell, surrounding cell, supercell, first images; composition and block-length rules); sublattice consistency of the pure translations",
         level="other",
         text="Decides the clause 'the supercell has lattice S^T L' and its siblings for the primitive cell and the shortest-vector basis change for every matrix at once: a transposed or wrong-lattice product is a type error unless the matrix is diagonal, which is exactly why tests on diagonal/symmetric matrices cannot see it. Also decides that cells which cannot be tiled are rejected before index maps are stored. Does not decide duplicate-free tiling or the group property of the translation permutations (runtime values). Also decides the trimming gate's integrality, that float change-of-basis matrices are rounded (not truncated) before they become integer, and that the old-style trimming frame divides row i of the supercell matrix by the frame length of row i.",
         note="Trusted: CPython ast; the seed types of cell/positions/matrices (documented conventions of PhonopyAtoms and the Supercell/Primitive docstrings). Unknown operands type to unknown and are never reported.",
@@ -47,21 +47,21 @@ CHECKS = {
         ref="DESIGN.md §3 C08",
     ),
     "C09": dict(
-        technique="static analysis on Python ast: structural proof obligations on the weight construction (open-term comparison), typestate over guard-correlated paths for the coupled symmetry flags, sibling keyword agreement for stored/iterated meshes, axis/weight abstract interpretation of nine mesh consumers (every sum/dot/einsum/loop accumulation over the irreducible q axis carries the weight; result homogeneous of degree 0 in the weights), pairwise precondition rule for the rotations (mesh numbers and half-shift flags per lattice-equivalent axis pair), guard-before-construction rule for consumers that need an unreduced mesh; finite-domain evaluation of the half-shift flag function; multiset typing of the weight construction; orientation typing of rotations; symbolic execution of the lattice-vector-equivalence function for a generic rotation with Boolean equivalence over sign-insensitive atoms; after its own rules, the other properties' rules on the files this property is anchored in (anchor-scoped delegation, instances cached per tree digest); global-normalisation rule for weighted means; binary-search rule; degree typing of the compiled consumers' C expressions in the q-point multiplicities (every store that reaches an output has degree 1)",
+        technique="static analysis on Python ast: structural proof obligations on the weight construction (open-term comparison), typestate over guard-correlated paths for the coupled symmetry flags, sibling keyword agreement for stored/iterated meshes, axis/weight abstract interpretation of nine mesh consumers (every sum/dot/einsum/loop accumulation over the irreducible q axis carries the weight; result homogeneous of degree 0 in the weights), pairwise precondition rule for the rotations (mesh numbers and half-shift flags per lattice-equivalent axis pair), guard-before-construction rule for consumers that need an unreduced mesh; finite-domain evaluation of the half-shift flag function; multiset typing of the weight construction; orientation typing of rotations; symbolic execution of the lattice-vector-equivalence function for a generic rotation with Boolean equivalence over sign-insensitive atoms; after its own rules, the other properties' rules on the files this property is anchored in (anchor-scoped delegation, instances cached per tree digest); global-normalisation rule for weighted means; binary-search rule; degree typing of the compiled consumers' C expressions in the q-point multiplicities (every store that reaches an output has degree 1); symbolic evaluation of the axis-pair compatibility flags in any spelling",
         level="other",
         text="Decides the clauses that make 'reduced sampling == full sampling' true by construction: weights are one count per grid point selected by the values of the same table; time reversal is never used where mesh symmetry is off (all constructor paths, all callers); both mesh flavours receive the same rotations and the symmetry library their documented orientation; every consumer (loop, dot, einsum or sum form) weights each q exactly once and divides by the weight sum; rotations are only used when mesh numbers and half-shifts agree on every pair of axes a rotation exchanges; eigenvector-dependent consumers refuse reduced meshes. Does not decide that spglib's mapping is a correct orbit decomposition.",
         note="Trusted: CPython ast, spglib's documented argument conventions.",
         ref="DESIGN.md §3 C09",
     ),
     "C10": dict(
-        technique="static analysis: source-to-sympy translation of the Python and C closed forms (algebraic identity checking), interval abstract interpretation with IEEE-754 specials, AST pattern rules for filters/guards/unit chain; element-wise symbolic execution of the whole compiled reduction (closed form of a generic output cell with indicator factors for the T and cutoff guards); path conditions of the accumulations; path enumeration of the constructor over its options (absolute values / band selection on every path); after its own rules, the other properties' rules on the files this property is anchored in (anchor-scoped delegation, instances cached per tree digest); binary-search rule",
+        technique="static analysis: source-to-sympy translation of the Python and C closed forms (algebraic identity checking), interval abstract interpretation with IEEE-754 specials, AST pattern rules for filters/guards/unit chain; element-wise symbolic execution of the whole compiled reduction (closed form of a generic output cell with indicator factors for the T and cutoff guards); path conditions of the accumulations; path enumeration of the constructor over its options (absolute values / band selection on every path); after its own rules, the other properties' rules on the files this property is anchored in (anchor-scoped delegation, instances cached per tree digest); binary-search rule; axis typing (component x band) of the eigenvector arrays in the projected sums",
         level="other",
         text="Decides, for the source expressions themselves (not sampled values): S=-dF/dT, Cv=T dS/dT, documented F, C==Python, absence of NaN/inf over a stated (T,nu) box including h nu/kT >> 709, a single cutoff filter, identical unit chain and the T=0 guard. Does not decide monotonicity or what LAPACK returns.",
         note="Trusted: CPython ast, clang-14 JSON AST, sympy as normaliser, the translators in engine/symalg.py, interval semantics in engine/absint.py (rounding ignored except overflow/underflow/absorption thresholds).",
         ref="DESIGN.md §3 C10",
     ),
     "C11": dict(
-        technique="static analysis: clang-JSON-to-sympy and ast-to-sympy translation of the 38+38 tetrahedron closed forms (equality as rational functions, sum rules by differentiation/cancellation), exhaustive evaluation of the literal C tetrahedra tables, abstract interpretation of the sorting network over the finite domain of 24 orderings, dispatch-table and case-split comparison, symbolic integration of the smearing kernels; element-wise symbolic execution of the table-copy and helper loops; provenance rule for stored iterator weights; role-based extraction (parameters by position, locals by what they receive); closed form of the compiled tetrahedron-DOS driver with uninterpreted library calls, structural rule on its irreducible-point tables; no-truncation rule for the smearing kernel; after its own rules, the other properties' rules on the files this property is anchored in (anchor-scoped delegation, instances cached per tree digest); grid-index stride rule; kind inference for the rank of the central vertex; the main-diagonal choice decided on the function itself: closed forms of the compared lengths and evaluation over all orderings of four lengths (finite ordering domain)",
+        technique="static analysis: clang-JSON-to-sympy and ast-to-sympy translation of the 38+38 tetrahedron closed forms (equality as rational functions, sum rules by differentiation/cancellation), exhaustive evaluation of the literal C tetrahedra tables, abstract interpretation of the sorting network over the finite domain of 24 orderings, dispatch-table and case-split comparison, symbolic integration of the smearing kernels; element-wise symbolic execution of the table-copy and helper loops; provenance rule for stored iterator weights; role-based extraction (parameters by position, locals by what they receive); closed form of the compiled tetrahedron-DOS driver with uninterpreted library calls, structural rule on its irreducible-point tables; no-truncation rule for the smearing kernel; after its own rules, the other properties' rules on the files this property is anchored in (anchor-scoped delegation, instances cached per tree digest); grid-index stride rule; kind inference for the rank of the central vertex; the main-diagonal choice decided on the function itself: closed forms of the compared lengths and evaluation over all orderings of four lengths (finite ordering domain); fresh-write rule for the DOS classes (state set elsewhere is not changed in place by run())",
         level="other",
         text="Decides: C==Python for every closed form and for the (i,ci) dispatch and omega case split; sum_c I=1, sum_c J=1 (additivity of projected DOS), dn/dw=g, continuity and full normalisation of n; geometric validity of the 4x24 literal tetrahedra; correctness of sort_omegas on all strict orderings; unit integral of both smearing kernels; that every DOS path weights by multiplicity and divides by the grid size once. Does not decide non-negativity / [0,1] bounds (inequalities) or the run-time generated Python table.",
         note="Trusted: clang-14 JSON AST (parsed with -DTHM_EPSILON=1e-10 as CMake does), CPython ast, sympy cancel/diff/integrate as normaliser, engine/symalg.py translators. Generic branch of _f (distinct vertex frequencies).",
@@ -75,21 +75,21 @@ CHECKS = {
         ref="DESIGN.md §3 C12",
     ),
     "C13": dict(
-        technique="static analysis over the clang-14 JSON AST of c/*.c and the nanobind glue plus Python ast: cross-language ABI table (dtype/contiguity/arity by backward def-use with call context), swapped-argument detector, OpenMP data-sharing and mixed-radix subscript-injectivity analysis with callee write summaries, preprocessor-block and serial/parallel twin comparison, symbolic bounds of every write against malloc sizes / fixed extents / Python allocation shapes, perfect mixed-radix (dense row-major) form of every affine subscript, symbolic differentiation of the derivative kernel's helpers, constant and sibling-kernel agreement; the kernel closed-form rules of C02/C06/C08/C10/C11/C12 re-run for their instances in the compiled sources (every routine equals its reference formula); after its own rules, the other properties' rules on the files this property is anchored in (anchor-scoped delegation, instances cached per tree digest)",
+        technique="static analysis over the clang-14 JSON AST of c/*.c and the nanobind glue plus Python ast: cross-language ABI table (dtype/contiguity/arity by backward def-use with call context), swapped-argument detector, OpenMP data-sharing and mixed-radix subscript-injectivity analysis with callee write summaries, preprocessor-block and serial/parallel twin comparison, symbolic bounds of every write against malloc sizes / fixed extents / Python allocation shapes, perfect mixed-radix (dense row-major) form of every affine subscript, symbolic differentiation of the derivative kernel's helpers, constant and sibling-kernel agreement; the kernel closed-form rules of C02/C06/C08/C10/C11/C12 re-run for their instances in the compiled sources (every routine equals its reference formula); after its own rules, the other properties' rules on the files this property is anchored in (anchor-scoped delegation, instances cached per tree digest); path enumeration of the glue functions: optional arrays are NULL or the caller's data per flag combination",
         level="other",
         text="Decides the shape-of-code failure modes the property names: a kernel reinterpreting a buffer (dtype, layout, argument order, axis), a data race or order-dependent shared accumulation in any of the 11 parallel regions (for every schedule and thread count), code that exists only in the OpenMP build, a write past a temporary, a fixed-extent array or the array Python allocated, leaks, and diverging cross-language constants. Does not decide that loop-nest kernels compute the reference values (that is decided for the closed-form kernels under C10/C11 only). For the kernels that have a closed form (Fourier sum, inverse transform, NAC terms, thermal reduction, tetrahedron weights and DOS driver, derivative kernel) it also decides that the routine computes the reference formula, by the rules of the property that owns the formula.",
         note="Trusted: clang-14 JSON AST, the 30-line nanobind/omp.h stubs under /verif/stubs, sympy polynomial arithmetic. Assumptions (value ranges / injectivity of integer index maps supplied by the Python layer) are printed in the evidence. Unresolved Python arguments are listed as unknown, never reported.",
         ref="DESIGN.md §3 C13",
     ),
     "C14": dict(
-        technique="static analysis on Python ast: guard-correlated alias/retention/overwrite analysis, path-sensitive definite-assignment (worlds of option-guard facts with class flag implications), open-term normal form of every eigenvalue->frequency conversion site, sibling-call keyword agreement across if-arms, who-reads rule for file writers; value-taint rule for the yaml / hdf5 writers of eigenvectors (copy only: indexing, transposition, reshape, real / imaginary part); after its own rules, the other properties' rules on the files this property is anchored in (anchor-scoped delegation, instances cached per tree digest); zone-centre window rule; same-name forwarding rule; sibling-class keyword rule; the batch solver behind the q-point drivers is an extra anchor for delegation (memory-order rules of the kernel arguments)",
+        technique="static analysis on Python ast: guard-correlated alias/retention/overwrite analysis, path-sensitive definite-assignment (worlds of option-guard facts with class flag implications), open-term normal form of every eigenvalue->frequency conversion site, sibling-call keyword agreement across if-arms, who-reads rule for file writers; value-taint rule for the yaml / hdf5 writers of eigenvectors (copy only: indexing, transposition, reshape, real / imaginary part); after its own rules, the other properties' rules on the files this property is anchored in (anchor-scoped delegation, instances cached per tree digest); zone-centre window rule; same-name forwarding rule; sibling-class keyword rule; the batch solver behind the q-point drivers is an extra anchor for delegation (memory-order rules of the kernel arguments); fresh-write rule: results handed out by reference are not overwritten in place by the next call (built-in positive example)",
         level="other",
         text="Decides, for every combination of the boolean output options (a product space no test enumerates), that no retained result view is overwritten through an alias, that no result variable is unbound on an option path, that all 11 access paths convert eigenvalues to frequencies by the same expression, that stored and iterated meshes (and every other if-selected sibling construction) are configured with the same keyword values, and that writers read only what the API returns. Does not decide that LAPACK eigenvectors diagonalise the matrix or band-connection permutations.",
         note="Trusted: CPython ast, sympy as normaliser. Assumes for-loops run at least once, == dispatch chains are exhaustive, and 'if b: self._a = True' in __init__ is an invariant.",
         ref="DESIGN.md §3 C14",
     ),
     "C15": dict(
-        technique="static analysis on Python ast: interprocedural effect summaries (which repo functions mutate which argument in place), two-state typestate (written / rebuilt) over guard-correlated worlds for every public method and property setter of Phonopy, who-captures-the-dynamical-matrix analysis, copy-at-the-boundary rules for PhonopyAtoms, constructor-parameter exhaustiveness of copy(); after its own rules, the other properties' rules on the files this property is anchored in (anchor-scoped delegation, instances cached per tree digest); may-alias analysis of conditional copies changed in place; the shared group-velocity and derivative objects are extra anchors for delegation (sticky per-call state)",
+        technique="static analysis on Python ast: interprocedural effect summaries (which repo functions mutate which argument in place), two-state typestate (written / rebuilt) over guard-correlated worlds for every public method and property setter of Phonopy, who-captures-the-dynamical-matrix analysis, copy-at-the-boundary rules for PhonopyAtoms, constructor-parameter exhaustiveness of copy(); after its own rules, the other properties' rules on the files this property is anchored in (anchor-scoped delegation, instances cached per tree digest); may-alias analysis of conditional copies changed in place; the shared group-velocity and derivative objects are extra anchors for delegation (sticky per-call state); fresh-write rule for the shared dynamical-matrix / group-velocity objects",
         level="other",
         text="Decides the clause that makes history independence possible at all: on every normal exit of every public state-changing operation (found through effect summaries, not a name list) the dynamical matrix and the persistent group-velocity helper are rebuilt from all four state fields, dataset writers drop the cached displaced supercells, builders do not feed a state field back into itself, cell objects hand out and store copies, and copy() forwards every constructor parameter. Histories are unbounded; the rule is per operation and therefore covers every sequence. Does not decide numerical equality with a fresh object.",
         note="Trusted: CPython ast; the accepted skip guards (no masses / no force constants yet) and the net-identity exception (show_drift_force_constants) are listed in the rule source. The documented zero-copy contract of Phonopy.force_constants is not judged. One known finding (deprecated frequency_scale_factor).",
@@ -110,14 +110,14 @@ CHECKS = {
         ref="DESIGN.md §3 C17",
     ),
     "C18": dict(
-        technique="static analysis on Python ast: extraction of the seven tables of the settings pipeline (argparse dests, read_options forwarding with guard kind and value encoding, parse_conf handlers, set_parameter names, set_settings consumers, Settings keys/setters, settings reads in the scripts) and set-algebra / agreement rules between adjacent tables, including evaluation of every parser default against the guard under which the dest is forwarded; silent-default evaluation of all add_argument calls; sibling-construction rule for the command defaults handed to the configuration parser; after its own rules, the other properties' rules on the files this property is anchored in (anchor-scoped delegation, instances cached per tree digest); path evaluation of the primitive-matrix precedence; same-name forwarding; in-place self-aliasing rule (an element taken without a copy is not the operand of an in-place update that runs over it; built-in positive example)",
+        technique="static analysis on Python ast: extraction of the seven tables of the settings pipeline (argparse dests, read_options forwarding with guard kind and value encoding, parse_conf handlers, set_parameter names, set_settings consumers, Settings keys/setters, settings reads in the scripts) and set-algebra / agreement rules between adjacent tables, including evaluation of every parser default against the guard under which the dest is forwarded; silent-default evaluation of all add_argument calls; sibling-construction rule for the command defaults handed to the configuration parser; after its own rules, the other properties' rules on the files this property is anchored in (anchor-scoped delegation, instances cached per tree digest); path evaluation of the primitive-matrix precedence; same-name forwarding; in-place self-aliasing rule (an element taken without a copy is not the operand of an in-place update that runs over it; built-in positive example); resolved-calculator rule for calculator-dependent defaults",
         level="other",
         text="Decides, exhaustively over all ~107 options and ~111 tags, the clause 'a setting has the same effect as tag or as option' as far as it is a property of the tables: every option reaches a handler, every parameter reaches an existing setter, every settings read in the scripts exists, the encoding stored for a key is the one its handler parses (including the polarity of negative flags), numeric options are forwarded under 'is not None' so that 0 means 0 on both routes, and an option that was not typed forwards nothing, so a configuration-file tag is not overridden by a parser default. Does not decide that output files equal library results. Also decides that the command defaults (phonopy-load: NAC on, symmetrised force constants) are in force whether or not a configuration file is read.",
         note="Trusted: CPython ast. Options handled directly by the scripts and namespace-only probes are frozen lists with one reason each. Documentation tags are reported as notes only.",
         ref="DESIGN.md §3 C18",
     ),
     "C19": dict(
-        technique="static analysis: source-to-sympy translation of the displacement prefactors with symbolic unit constants (identity with hbar/(2 m w)(1+2n) and k_B T/(m w^2)), equality of the Bose-Einstein expressions across modules, structural rules for the sqrt(2) / real-imaginary bookkeeping of conjugate q-point pairs, interprocedural frame typing of the sampler's position/phase set-up; interprocedural count of seeded random generators per run; open-term comparison of the sampler and thermal-displacement assembly sites in each function's own environment; symbolic evaluation of the CIF normalisation on 3x3 symbols; broadcast-alignment rule; after its own rules, the other properties' rules on the files this property is anchored in (anchor-scoped delegation, instances cached per tree digest); memoised-derived-state rule (with a built-in positive example); symbolic evaluation of the spectral reassembly D = V diag(w) V^H on complex symbols (loop, batched matmul and einsum spellings)",
+        technique="static analysis: source-to-sympy translation of the displacement prefactors with symbolic unit constants (identity with hbar/(2 m w)(1+2n) and k_B T/(m w^2)), equality of the Bose-Einstein expressions across modules, structural rules for the sqrt(2) / real-imaginary bookkeeping of conjugate q-point pairs, interprocedural frame typing of the sampler's position/phase set-up; interprocedural count of seeded random generators per run; open-term comparison of the sampler and thermal-displacement assembly sites in each function's own environment; symbolic evaluation of the CIF normalisation on 3x3 symbols; broadcast-alignment rule; after its own rules, the other properties' rules on the files this property is anchored in (anchor-scoped delegation, instances cached per tree digest); memoised-derived-state rule (with a built-in positive example); symbolic evaluation of the spectral reassembly D = V diag(w) V^H on complex symbols (loop, batched matmul and einsum spellings); axis typing of the D-type to C-type eigenvector conversion; fresh-write rule for result arrays",
         level="other",
         text="Decides the prefactor and distribution clauses for all temperatures/frequencies at once: both modules' mean-square amplitude per mode is algebraically the harmonic canonical one (quantum and classical), the two Bose-Einstein factors are the same function, q = -q+G points carry no sqrt(2) and conjugate pairs do with Re - Im, the partition is computed once, and supercell positions enter the phases as primitive-cell components contracted with reduced q-points. Does not decide covariance equality of the sampler, positive semi-definiteness or the CIF transform.",
         note="Trusted: CPython ast, sympy, units.py constants as symbols. One known finding: populations are switched off for T <= 1 K in ThermalMotion.",
